@@ -85,8 +85,8 @@ type Loc struct {
 // ---- translator-level heap plumbing ----
 
 type HeapEnv struct {
-	d     *Decls
-	comps map[string]*Comp
+	d      *Decls
+	comps  map[string]*Comp
 	nEpoch int
 }
 
@@ -233,10 +233,10 @@ func (h *HeapEnv) write(s *State, l *Loc, val string) *State {
 
 // ModRegion is a resolved item of a modifies clause.
 type ModRegion struct {
-	Comp   *Comp
-	Ref    string // obj or ref
-	Lo, Hi string // absolute index range for compElem (half-open)
-	ConstLen int  // >0: Hi-Lo is this literal (quantifier-free havoc possible)
+	Comp     *Comp
+	Ref      string // obj or ref
+	Lo, Hi   string // absolute index range for compElem (half-open)
+	ConstLen int    // >0: Hi-Lo is this literal (quantifier-free havoc possible)
 }
 
 func (m ModRegion) contains(o, p string) string {
